@@ -27,6 +27,7 @@ Defs == [ sec |-> <<86400, 3600, 60>>,
           g10 |-> <<10>>,
           g12 |-> <<12, 4>>,
           g73 |-> <<7, 3>>,
+          gcs |-> <<1000000, 1000>>,               \* names that differ only in letter case (mW / MW)
           gk  |-> <<1000000, 1000, 10, 2>> ]
 DefIds == DOMAIN Defs
 
